@@ -13,3 +13,9 @@ pub fn vresize_with_veccap<T>(v: &mut Vec<Vec<T>>, new_len: usize, cap: usize)
 pub assume_specification[ usize::div_ceil ](a: usize, b: usize) -> (r: usize)
     requires b > 0,
     ensures r == (a as int + b as int - 1) / (b as int);
+
+pub assume_specification[ usize::leading_zeros ](a: usize) -> (r: u32)
+    ensures r <= 64, a == 0 ==> r == 64,
+        a != 0 ==> r < 64 && (a >> ((63 - r) as usize)) == 1;
+pub assume_specification[ usize::is_power_of_two ](a: usize) -> (r: bool)
+    ensures r == (a != 0 && (a & ((a - 1) as usize)) == 0);
